@@ -76,6 +76,15 @@ CLAIMS = {
          "oracles `skip_justified` and `max_threads` on every REAL layout",
          "genuine defect found and repaired (fix: f8d62d5): pre-barrier and repeated dependencies were never crossed off",
          "invariant induction + differential correspondence", "5 C10"),
+ "C11": ("PARTIAL proof: theorems about a pool MODEL (Pool.v: P workers, an idle worker takes a pending group, rendezvous heads): with "
+         "P >= width no reachable non-final state is stuck and the all-inside-run state is reachable; with P < width a deadlock is "
+         "reachable (the precondition is needed). tie: S8 on the REAL crate and REAL rayon pools: for every stage width 2..16 x "
+         "{user pool of exactly `width` threads, user pool of 16, default pool (one thread per CPU, widths <= CPUs), inside a batch, "
+         "async dispatcher} all systems of the stage must be inside run simultaneously (condvar rendezvous, 5 s limit), over "
+         "repeated dispatches; the model's prediction (completes iff threads >= width) is compared, incl. two deadlocking cases",
+         "that rayon behaves like the model (work stealing, par_iter splitting) is runtime behaviour of a dependency: exercised, "
+         "not proved. A serialising change deadlocks the rendezvous => VIOLATION with the configuration as replay",
+         "state-machine proof about a pool model + runtime rendezvous on the real pools (partial)", "5 C11"),
  "C12": ("proof: thread-local list = thread-local registrations in order (all programs); in EVERY trace of the executor model the "
          "thread-local windows come last, after every ordinary system has released, one at a time in registration order, on the "
          "calling thread; sendable <=> no thread-local systems; tie: S1 (tl count/order, try_into_sendable outcome and preserved plan), "
@@ -146,7 +155,7 @@ CLAIMS = {
          "stage/group and are outside the text",
          "invariant induction + differential correspondence", "5 C20"),
 }
-REGISTERED = ["C01", "C02", "C03", "C04", "C05", "C06", "C07", "C08", "C09", "C10", "C12", "C13", "C14", "C15", "C16", "C17", "C18", "C20"]
+REGISTERED = ["C01", "C02", "C03", "C04", "C05", "C06", "C07", "C08", "C09", "C10", "C11", "C12", "C13", "C14", "C15", "C16", "C17", "C18", "C20"]
 
 def main():
     props = [json.loads(l) for l in open(os.path.join(VERIF, "properties.jsonl"))]
